@@ -77,13 +77,17 @@ where
             self.last = view_last;
         }
         if self.q_vals.len() >= self.window_len {
-            let old = *self.q_vals.front().unwrap();
+            let old = self.q_vals.pop_front().unwrap();
             if old <= self.min || old >= self.max {
-                let (min, max) = extent_queue(&self.q_vals);
-                self.min = min;
-                self.max = max;
+                if self.q_vals.is_empty() {
+                    self.min = view_last;
+                    self.max = view_last;
+                } else {
+                    let (min, max) = extent_queue(&self.q_vals);
+                    self.min = min;
+                    self.max = max;
+                }
             }
-            self.q_vals.pop_front();
         }
         self.q_vals.push_back(view_last);
         if view_last > self.max {
